@@ -23,7 +23,8 @@ TRUSTED = [
     "Select/SelectExplainModel.v: hand transcription of countSelectQueryChildren / explainSelectQuery (+ inherited WITH), countSelectUnionChildrenTail / explainUnionTail and both union printers, explainSelectIntersectExceptQuery, tied to the code by the selectcount correspondence (header count, direct children and md5 of the text)",
     "Ddl/DdlExplainModel.v: hand transcription of Column, Index, explainCreateQuery (all variants and sub-tallies), explainAlterQuery, countAlterCommandChildren / explainAlterCommand, explainProjection, explainStatisticsCommand, tied to the code by the ddlcount correspondence (header count, direct children, md5 of the text, whole-subtree tree check); callees (Node on expressions / types / statements, explainFunctionCall, dictionary attribute / definition printers) are assumed to print one rooted tree",
     "Stmt/StmtExplainModel.v: hand transcription of the statement printers of statements.go outside CREATE / ALTER (explainInsertQuery ... explainParallelWithQuery), of the statements Node prints inline in explain.go, of dictionary.go and of tables.go, tied to the code by the stmtcount correspondence (header count, direct children, md5 of the text, whole-subtree tree check; exhaustive over the field domains of checks/gen_stmt_cases.py); the unions under INSERT / EXPLAIN are the SELECT model's; other callees (Node on expressions / types / table identifiers / nested statements, explainFunctionCall(WithAlias), formatSampleRatio's text) are assumed to print one rooted tree / one line; explainTablesInSelectQuery is modelled and proved but cannot be reached through parser.Explain (no correspondence for it)",
-    "printers outside the three models (expressions, functions, data types, format.go): only the verified oracle applied to real output (search, not proof) — the C04 claim is partial there",
+    "ExprEx/ExprExplainModel.v: hand transcription of the expression printers of expressions.go and functions.go and of the expression cases of Node (every printer, its ...WithAlias twin and the copies inside explainAliasedExpr / explainWithElement separately; the helper predicates containsOnly..., the IN-list classification loop with its break, handleSpecialFunction), tied to the code by the exprcount correspondence on ASTs built directly from terms (header count, direct children, md5 of the text with every 'Literal <text>' line rewritten to 'Literal _', whole-subtree tree check); opaque and trusted: label texts (format.go: FormatLiteral, NormalizeFunctionName, OperatorToFunction, normalizeIntervalUnit, escaping of names and aliases), what parseKQL / parseMultiIntervalString / ParseFloat return for a string (an input of the model; the driver's table for the nine strings of the harness), statements and data types beneath expressions (one abstract tree each), typed-nil pointers; explainWindowSpec is modelled and proved but unreachable (windowSpecHasContent returns false), so it has no correspondence",
+    "printers outside the four models (data types: explainDataType / NameTypePair / ObjectTypeArgument, format.go): only the verified oracle applied to real output (search, not proof) — the C04 claim is partial there",
     "translator/cmd/genkinds: node-kind vocabulary = first words of node lines of all explain*.txt goldens; extraction (ExtrOcamlBasic only) + OCaml glue",
 ]
 
@@ -31,7 +32,7 @@ TRUSTED = [
 def run(rep):
     st = verif.proof_stage(rep, "C04", needs_translators=["gentables", "genkinds"])
     broken = list(st["broken"])
-    broken += verif.build_topic(go_pkgs=("psearch", "selectcount", "ddlcount", "stmtcount", "explaindump"), drivers=(("tree", "tree_ex"), ("selectcount", "selectcount_ex"), ("ddlcount", "ddlcount_ex"), ("stmtcount", "stmtcount_ex")))
+    broken += verif.build_topic(go_pkgs=("psearch", "selectcount", "ddlcount", "stmtcount", "exprcount", "explaindump"), drivers=(("tree", "tree_ex"), ("selectcount", "selectcount_ex"), ("ddlcount", "ddlcount_ex"), ("stmtcount", "stmtcount_ex"), ("exprcount", "exprcount_ex")))
     found = False
     if not any(b["obligation"].startswith("build:") for b in broken):
         quick = rep.tier == "quick"
@@ -87,6 +88,9 @@ def run(rep):
         # (1c) the remaining statement printers, dictionary.go, tables.go: model vs code on field combinations
         stmt = stmt_correspondence(rep, broken, quick)
         found = found or stmt.pop("found")
+        # (1d) the expression printers (expressions.go, functions.go, the expression cases of Node): model vs code on ASTs built directly
+        expr = expr_correspondence(rep, broken, quick)
+        found = found or expr.pop("found")
         # (2) verified checker on the real EXPLAIN output of VALID statements (the property quantifies over syntactically valid
         # statements: corpus statements; mutants accepted by the permissive parser are not in its scope and belong to C03)
         tin = os.path.join(verif.BUILD, "tree_in.txt")
@@ -172,14 +176,16 @@ def run(rep):
         if rc2 != 0:
             broken.append({"obligation": "driver:tree", "detail": e2[-500:]})
         rep.coverage.update({
-            "evaluations": n_txt + n_sel + ddl["ddl_model_cases"] + stmt["stmt_model_cases"], "distinct_nontrivial": n_txt,
+            "evaluations": n_txt + n_sel + ddl["ddl_model_cases"] + stmt["stmt_model_cases"] + expr["expr_model_cases"], "distinct_nontrivial": n_txt,
             "rule": "EXPLAIN text of every corpus statement (quick: the 9.7k-statement sample in /verif/corpus; thorough: every statement of every enabled parser/testdata/*/query.sql) and of 20k (quick) / 400k (thorough) statements of the verification grammar (checks/gen_sql_grammar.py: SELECT with every clause subset, set operations, INSERT, CREATE, ALTER, utility statements, :: literals, nesting to 300 levels) run through the extracted verified checker check_text with the node kinds of the goldens; "
                     "plus Go-vs-model comparison of header count / printed children / text hash on SelectQuery, union, intersect, INSERT, EXPLAIN and CREATE ASTs built directly (exhaustive 2^16 / 2^13 field combinations in the thorough tier); "
                     "plus the same Go-vs-model comparison (and a whole-subtree tree check on both sides) on ColumnDeclaration, IndexDefinition, AlterCommand (every command type x every combination of the fields its tally or emission reads), AlterQuery and CreateQuery ASTs built directly (checks/gen_ddl_cases.py; counts under coverage.ddl); "
-                    "plus the same comparison on InsertQuery, DropQuery, UndropQuery, RenameQuery, ExchangeQuery, TruncateQuery, OptimizeQuery, DeleteQuery, CheckQuery, UseQuery, DescribeQuery, ExistsQuery, ShowQuery (every ShowType), SystemQuery, ExplainQuery (top level and nested), DetachQuery, AttachQuery, BackupQuery, RestoreQuery, KillQuery, CreateIndexQuery, Assignment, UpdateQuery, ParallelWithQuery, the statements Node prints inline, dictionary attribute / definition and TablesInSelectQueryElement / TableExpression / TableJoin ASTs built directly (checks/gen_stmt_cases.py: the full product of the field domains in the thorough tier; counts under coverage.stmt); distinct_nontrivial = texts checked",
+                    "plus the same comparison on InsertQuery, DropQuery, UndropQuery, RenameQuery, ExchangeQuery, TruncateQuery, OptimizeQuery, DeleteQuery, CheckQuery, UseQuery, DescribeQuery, ExistsQuery, ShowQuery (every ShowType), SystemQuery, ExplainQuery (top level and nested), DetachQuery, AttachQuery, BackupQuery, RestoreQuery, KillQuery, CreateIndexQuery, Assignment, UpdateQuery, ParallelWithQuery, the statements Node prints inline, dictionary attribute / definition and TablesInSelectQueryElement / TableExpression / TableJoin ASTs built directly (checks/gen_stmt_cases.py: the full product of the field domains in the thorough tier; counts under coverage.stmt); "
+                    "plus the same comparison on EXPRESSION ASTs built directly as terms (checks/gen_exprcount_cases.py: every expression node kind, its aliased and WithElement variants, the special-cased function names, literal / IN lists of length 0..3 over one representative of every class the printers' helper predicates distinguish; counts under coverage.expr); distinct_nontrivial = texts checked",
             "samples": res["samples"], "verdicts": verdicts, "select_model_cases": n_sel, "select_model_mismatches": mism, "status_counts": res["counts"],
             "ddl": ddl,
             "stmt": stmt,
+            "expr": expr,
             "trusted_base": TRUSTED,
         })
     verif.report_broken(rep, broken, found)
@@ -482,8 +488,136 @@ def stmt_correspondence(rep, broken, quick):
             "stmt_enumeration": "checks/gen_stmt_cases.py: per kind the full product of the domains of every field the printer reads (thorough); quick: the full product for every kind of at most %d combinations, for DRP and ATT every combination of the fields entering the tallies (the others seeded) plus a seeded sample" % gsc.QUICK_MAX}
 
 
+# ----------------------------------------------------------------------------------------------
+# expression printers: /verif/build/exprcount (real printers) vs /verif/build/exprcount_driver (extracted ExprExplainModel)
+# ----------------------------------------------------------------------------------------------
+
+# valid statements on which the aliased printer's tree differs from the plain printer's by more than the " (alias a)" annotation
+# (Properties/C04_expr.v Part 2: *_drift_refuted, C04_function_call_alias_is_annotation_or_dropped, C04_aliased_default_drops_alias);
+# both texts are well-formed trees, so these are not C04 violations: recorded in the evidence with what the code prints today
+EXPR_ALIAS_SQL = [
+    ("single-element-tuple", "SELECT (1,)", "SELECT (1,) AS x"),
+    ("negative-number-in-tuple", "SELECT (1, -2)", "SELECT (1, -2) AS x"),
+    ("parenthesised-element", "SELECT [(1), 2]", "SELECT [(1), 2] AS x"),
+    ("in-single-tuple", "SELECT 1 IN ((1, 2))", "SELECT 1 IN ((1, 2)) AS x"),
+    ("in-arrays", "SELECT [1] IN ([1], [2])", "SELECT [1] IN ([1], [2]) AS x"),
+    ("in-tuples-with-negative", "SELECT (1,2) IN ((1,-2),(3,4))", "SELECT (1,2) IN ((1,-2),(3,4)) AS x"),
+    ("between-alias-dropped", "SELECT a BETWEEN 1 AND 2", "SELECT a BETWEEN 1 AND 2 AS x"),
+    ("trim-empty-alias-dropped", "SELECT trim(LEADING '' FROM 'foo')", "SELECT trim(LEADING '' FROM 'foo') AS x"),
+]
+
+
+def expr_outside(case):
+    """Name of the condition of Properties/C04_expr.v that the term violates (inv_expr), None when C04_expr_is_tree applies."""
+    if " tr 3 " in case:
+        return "unknown-transformer-type"          # the parser builds the Types apply / except / replace only
+    return None
+
+
+def expr_texts(case):
+    """Both sides' text for one case (for the replay file)."""
+    import subprocess
+    out = {}
+    for name, binp in (("go", "exprcount"), ("model", "exprcount_driver")):
+        try:
+            p = subprocess.run([os.path.join(verif.BUILD, binp), "-text"], input=(case + "\n").encode(), stdout=subprocess.PIPE,
+                               stderr=subprocess.PIPE, timeout=60)
+            f = p.stdout.decode().rstrip("\n").split("\t")
+            out[name + "_text"] = bytes.fromhex(f[2]).decode("utf-8", "replace") if len(f) >= 3 and f[2] not in ("-", "") else p.stdout.decode() + p.stderr.decode()
+        except Exception as e:                                      # the replay stays usable without the texts
+            out[name + "_text"] = "unavailable: %s" % e
+    return out
+
+
+def expr_correspondence(rep, broken, quick):
+    cases = os.path.join(verif.BUILD, "expr_cases.txt")
+    rc, out = verif.sh("python3 %s %d %s > %s" % (os.path.join(verif.ROOT, "checks", "gen_exprcount_cases.py"), rep.seed, "--quick" if quick else "", cases),
+                       shell=True, timeout=1800)
+    g, m = cases + ".go", cases + ".ml"
+    rcg, eg = verif.parallel_map_files([os.path.join(verif.BUILD, "exprcount")], cases, g, timeout=6000)
+    rcm, em = verif.parallel_map_files([os.path.join(verif.BUILD, "exprcount_driver")], cases, m, timeout=6000, unlimited_stack=True)
+    n = mism = bad = 0
+    found = False
+    kinds, outside, first_diff = {}, {}, []
+    with open(cases) as fc, open(g) as fg, open(m) as fm:
+        for c, o, mo in verif.itertools_zip3(fc, fg, fm):
+            n += 1
+            k = c.split("\t")[0]
+            kinds[k] = kinds.get(k, 0) + 1
+            p = o.split("\t")
+            if o != mo:
+                # the Go code and the model differ: a concrete failing case (the theorems are about the model only)
+                mism += 1
+                if len(first_diff) < 3:
+                    first_diff.append((c[:160], o[:80], mo[:80]))
+                if mism <= 3:
+                    found = True
+                    data = {"expr_case": c, "go": o, "model": mo}
+                    data.update(expr_texts(c))
+                    rep.violation("input", "expression printer and its proved model differ (header count / printed children / text / tree check) on AST term " + c[:160],
+                                  data, input_hex=c.encode().hex())
+                continue
+            why = expr_outside(c)
+            if p[0] in ("PANIC", "NOSUBTREE") or len(p) < 5:
+                bad += 1
+                if bad <= 3:
+                    found = True
+                    rep.violation("input", "expression printer %s on AST term %s" % (p[0], c[:160]), {"expr_case": c, "go": o}, input_hex=c.encode().hex())
+            elif p[0] != p[1] or p[3] != "T":
+                if why is None:
+                    # inside inv_expr the model prints a tree (C04_expr_is_tree), so this needs o == mo to be violated too; kept as a net
+                    bad += 1
+                    if bad <= 3:
+                        found = True
+                        data = {"expr_case": c, "go": o, "model": mo, "header": p[0], "direct_children": p[1], "tree": p[3]}
+                        data.update(expr_texts(c))
+                        rep.violation("input", "(children N) differs from the printed children in the expression subtree of AST term " + c[:160], data,
+                                      input_hex=c.encode().hex())
+                else:
+                    outside[why] = outside.get(why, 0) + 1
+    if rc != 0 or rcg != 0 or rcm != 0 or n == 0:
+        broken.append({"obligation": "harness:gen_exprcount_cases|exprcount|exprcount_driver", "detail": (out + eg + em)[-600:]})
+    if mism:
+        broken.append({"obligation": "correspondence:internal/explain/{expressions,functions,explain}.go~ExprExplainModel",
+                       "detail": "%d of %d cases differ: %s" % (mism, n, first_diff)})
+    # the valid statements whose aliased form prints another tree than the plain form (informative: both are trees)
+    win = os.path.join(verif.BUILD, "expr_alias_in.txt")
+    with open(win, "w") as f:
+        for _, plain, aliased in EXPR_ALIAS_SQL:
+            f.write(plain.encode().hex() + "\n" + aliased.encode().hex() + "\n")
+    rcw, outw = verif.sh("%s -v < %s" % (os.path.join(verif.BUILD, "explaindump"), win), shell=True, timeout=300)
+    texts = {}
+    for line in outw.splitlines():
+        q = line.split("\t")
+        if len(q) >= 2 and q[-1] not in ("ERR", "PANIC", "PARSEPANIC"):
+            try:
+                texts[q[0]] = bytes.fromhex(q[-1] if q[-1] != "-" else "").decode("utf-8", "replace")
+            except ValueError:
+                pass
+    drift = []
+    for name, plain, aliased in EXPR_ALIAS_SQL:
+        tp, ta = texts.get(plain.encode().hex()), texts.get(aliased.encode().hex())
+        same = None
+        if tp is not None and ta is not None:
+            same = ta.replace(" (alias x)", "", 1) == tp
+        drift.append({"case": name, "plain": plain, "aliased": aliased, "aliased_is_plain_plus_annotation": same,
+                      "alias_printed": None if ta is None else ("(alias x)" in ta)})
+    return {"found": found, "expr_model_cases": n, "expr_model_mismatches": mism, "expr_cases_by_kind": kinds,
+            "expr_not_tree_outside_proved_conditions": outside,
+            "expr_alias_drift_on_valid_sql": drift,
+            "expr_enumeration": "checks/gen_exprcount_cases.py: terms of every expression node kind; thorough: full products with lists of length 0..3 over "
+                                "54 element classes (literal / IN lists), 14 argument classes x 23 function-name classes, all BinaryExpr trees of 3 levels; "
+                                "quick: the small kinds in full, lists to length 2 over 12 classes, the rest capped at 30000 per kind plus a seeded 5% sample"}
+
+
 def replay(rec):
     import subprocess
+    if "expr_case" in rec:
+        print(rec["expr_case"])
+        for k, v in sorted(expr_texts(rec["expr_case"]).items()):
+            print("--- " + k)
+            print(v)
+        return 0
     if "stmt_case" in rec:
         print(rec["stmt_case"])
         for k, v in sorted(stmt_texts(rec["stmt_case"]).items()):
